@@ -242,6 +242,22 @@ def regenerate(repo=None):
           't1_fallback_units': [f"{n} @ {w}: {why}" for n, w, why in fallback]}
 
 
+def regenerate_all(repo=None):
+  """every generated Lean file (kernels now; class table / validators when their translators exist)."""
+  out = regenerate(repo)
+  for modname in ('translate_classes', 'translate_validators'):
+    try:
+      mod = __import__('vk.' + modname, fromlist=['regenerate'])
+    except ImportError:
+      continue
+    extra = mod.regenerate(repo or REPO)
+    out['changed'] = out['changed'] or extra.get('changed', False)
+    out['t1_units'] += extra.get('t1_units', [])
+    out['t1_fallback_units'] += extra.get('t1_fallback_units', [])
+  return out
+
+
 if __name__ == '__main__':
   import json
-  print(json.dumps(regenerate(sys.argv[1] if len(sys.argv) > 1 else None), indent=1))
+  sys.path.insert(0, os.path.join(HERE, '..'))
+  print(json.dumps(regenerate_all(sys.argv[1] if len(sys.argv) > 1 else None), indent=1))
